@@ -17,6 +17,7 @@ import Mitx.Driver.Schema
 import Mitx.Driver.Globals
 import Mitx.Driver.Answers
 import Mitx.Driver.Defaults
+import Mitx.Driver.MatrixShape
 open Lean
 
 def dispatch (op : String) (j : Json) : Except String Json :=
@@ -30,6 +31,8 @@ def dispatch (op : String) (j : Json) : Except String Json :=
   | "validate_answers" => Drv.validateAnswers j
   | "np_hist" => Drv.npHist j
   | "defaults_hist" => Drv.defaultsHist j
+  | "shape_validate" => Drv.shapeValidate j
+  | "shape_ladder" => Drv.shapeLadder j
   | "string_clean" => Drv.stringClean j
   | "string_check" => Drv.stringCheck j
   | "check" => Drv.gradeCheck j
